@@ -130,8 +130,8 @@ CLAIMED = {
     "C10": ("Theorems for ALL targets/proposals/constraints/outcomes: per-particle log weight of init/extend = log p(choices, obs) - log q(proposed or unconstrained choices) "
             "(default proposal: C10_default_weight; custom proposal with merge precedence: C10_custom_weight / C10_extend_custom_weight), rejuvenation keeps weights for any kernel, "
             "resampling keeps exp(lml) for any index vector. Unbiasedness of the evidence estimate is mechanised for init with the default proposal (C10_init_estimate_unbiased: N independent particles, "
-            "finite discrete Cond-free targets, E[mean exp(w_i)] = P(observations)); for extend / resample / rejuvenate pipelines and custom proposals it is NOT (partial). Correspondence: hand-composed pipelines under seed with real dyadic categorical sites; rejuvenation_smc's own control "
-            "skeleton (ESS trigger inside cond/scan) is not yet covered by a case type.",
+            "finite discrete Cond-free targets, E[mean exp(w_i)] = P(observations)); for extend / resample / rejuvenate pipelines and custom proposals it is NOT (partial). Correspondence: hand-composed pipelines under seed with real dyadic categorical sites (custom proposals over all or a strict subset of the latents), "
+            "and rejuvenation_smc itself with return_all_particles=True (every time step judged as resampled / not resampled).",
             "Trusted: Coq kernel; model coq/Model/Smc.v (particle-level init/extend/rejuvenate) + Model/Resample.v; harness/worker_smc.py (log weights divided by ln 2 and rounded; "
             "exp(lml) compared within 5e-4 relative in exact rationals). No axioms.",
             "Coq proof (corollaries of the generate theorem; field identity for resampling) + specification judgement of implementation snapshots (vm_compute)", "7/C10"),
